@@ -1,5 +1,5 @@
 (* C06 -- Reported pinch temperatures are where the exact cascade is pinched (statements only). *)
-From OP Require Import gen.Consts model.Base model.Cascade model.Pinch proofs.CascadeSpec proofs.CascadeGrid proofs.PinchFacts proofs.PinchResidual.
+From OP Require Import gen.Consts model.Base model.Cascade model.Pinch proofs.CascadeSpec proofs.CascadeExact proofs.CascadeGrid proofs.PinchFacts proofs.PinchResidual proofs.ComposePinchStage.
 From Coq Require Import Lia.
 Local Open Scope Q_scope.
 
@@ -52,3 +52,120 @@ Print Assumptions C06_all_zero_absent_refuted.
 (* non-vacuity: a multi-pinch column with zero runs at both ends *)
 Example C06_example : pinch_idx tol [0; 0; 5; 0; 3; 0; 0] = (1%nat, 5%nat, true).
 Proof. vm_compute. reflexivity. Qed.
+
+(* ------------------------------------------------------------------ THE COMPOSED PROPERTY (proofs/ComposePinchStage.v)
+   `residual hot cold T` = Qh* - (net deficit above T) is the exact residual of the streams (model/Pinch.v; Qh* is the
+   independent reference value of C01), a function of EVERY real temperature T.  p = the table of the cascade model,
+   pT p its row temperatures (descending), pHn p its H_net column; `pinch_temperatures tol (pT p) (pHn p)` is what
+   ProblemTable.pinch_temperatures reports.  Hypotheses: those of C06_table_residual_is_exact, plus: some row is a zero of
+   the residual (< tol) and some row is not.  Then a pair (T_h, T_c) = (row rh, row rc) is reported and
+     1  rh <= rc < number of rows;
+     2  0 <= residual(T_h) < tol and 0 <= residual(T_c) < tol;                       3  T_c <= T_h;
+     4  for every REAL temperature T > T_h with residual(T) < tol: either residual < tol at EVERY temperature >= T_h (a zero
+        run touching the top end: threshold problem), or T lies in the single interval directly above row rh, whose upper
+        row is not a zero (the residual rises linearly from < tol at T_h to >= tol there);     5  symmetrically below T_c;
+     6  for every real T > T_h (T < T_c) with residual(T) == 0 EXACTLY only the first alternative remains
+        (C06_no_pinch_hidden_between_rows: an exact zero inside an interval forces exact zeros on both of its rows);
+     7  threshold: if the residual is a zero at the top (bottom) row, it is a zero everywhere from T_h upwards (T_c downwards)
+        and the next row below T_h (above T_c) exists and is NOT a zero: the reported pinch is the process-side end of the run.
+   Nothing is claimed about zeros between T_c and T_h: every other pinch lies there. *)
+Theorem C06_reported_pinches_are_exact_pinches :
+  forall hot cold extra, wfs hot -> wfs cold -> hot ++ cold <> [] ->
+  on_lattice (endpoints (hot ++ cold ++ extra)) ->
+  gaps_b act_window (grid_of (endpoints (hot ++ cold ++ extra))) = true ->
+  let p := stage_model act_window hot cold extra in
+  let R := residual hot cold in
+  (exists T, In T (pT p) /\ R T < tol) -> (exists T, In T (pT p) /\ tol <= R T) ->
+  exists rh rc, pinch_idx tol (pHn p) = (rh, rc, true)
+    /\ pinch_temperatures tol (pT p) (pHn p) = Some (nth rh (pT p) 0, nth rc (pT p) 0)
+    /\ let g := pT p in let n := List.length g in let Th := nth rh g 0 in let Tc := nth rc g 0 in
+       ((rh <= rc)%nat /\ (rc < n)%nat)
+       /\ (0 <= R Th /\ R Th < tol)
+       /\ (0 <= R Tc /\ R Tc < tol)
+       /\ Tc <= Th
+       /\ (forall T, Th < T -> R T < tol ->
+             (forall T', Th <= T' -> R T' < tol)
+             \/ ((0 < rh)%nat /\ T < nth (rh - 1) g 0 /\ tol <= R (nth (rh - 1) g 0)))
+       /\ (forall T, T < Tc -> R T < tol ->
+             (forall T', T' <= Tc -> R T' < tol)
+             \/ ((S rc < n)%nat /\ nth (S rc) g 0 < T /\ tol <= R (nth (S rc) g 0)))
+       /\ (forall T, Th < T -> R T == 0 -> forall T', Th <= T' -> R T' < tol)
+       /\ (forall T, T < Tc -> R T == 0 -> forall T', T' <= Tc -> R T' < tol)
+       /\ (R (nth 0 g 0) < tol -> (forall T', Th <= T' -> R T' < tol) /\ (S rh < n)%nat /\ tol <= R (nth (S rh) g 0))
+       /\ (R (nth (n - 1) g 0) < tol -> (forall T', T' <= Tc -> R T' < tol) /\ (0 < rc)%nat /\ tol <= R (nth (rc - 1) g 0)).
+Proof. exact stage_pinch_composed. Qed.
+Print Assumptions C06_reported_pinches_are_exact_pinches.
+
+(* absent, in terms of the exact residual: no pinch is reported iff no row of the table is a zero of the residual -- or every
+   row is (the second disjunct is finding D18, kept as it is) *)
+Theorem C06_absent_iff_exact_residual :
+  forall hot cold extra, wfs hot -> wfs cold -> hot ++ cold <> [] ->
+  on_lattice (endpoints (hot ++ cold ++ extra)) ->
+  gaps_b act_window (grid_of (endpoints (hot ++ cold ++ extra))) = true ->
+  let p := stage_model act_window hot cold extra in
+  (snd (pinch_idx tol (pHn p)) = false <->
+   ((forall T, In T (pT p) -> tol <= residual hot cold T) \/ (forall T, In T (pT p) -> residual hot cold T < tol))).
+Proof. exact stage_pinch_absent_iff. Qed.
+Print Assumptions C06_absent_iff_exact_residual.
+
+(* The same for ARBITRARY doubles (not on the 6-decimal lattice): the residual is that of the streams with end points rounded
+   to the grid's decimals (roundv), under the hypotheses of C01_targets_exact_for_rounded_streams; the ten clauses are
+   `pinch_real_spec` (proofs/ComposePinchStage.v), literally the clause list spelled out above. *)
+Theorem C06_reported_pinches_are_exact_pinches_rounded :
+  forall hot cold extra, wfs_b (map roundv hot) = true -> wfs_b (map roundv cold) = true -> hot ++ cold <> [] ->
+  gaps_b (act_window + delta6) (grid_of (endpoints (hot ++ cold ++ extra))) = true ->
+  let p := stage_model act_window hot cold extra in
+  let R := residual (map roundv hot) (map roundv cold) in
+  (exists T, In T (pT p) /\ R T < tol) -> (exists T, In T (pT p) /\ tol <= R T) ->
+  exists rh rc, pinch_idx tol (pHn p) = (rh, rc, true)
+    /\ pinch_temperatures tol (pT p) (pHn p) = Some (nth rh (pT p) 0, nth rc (pT p) 0)
+    /\ pinch_real_spec tol R (pT p) rh rc.
+Proof. exact stage_rounded_pinch_composed. Qed.
+Print Assumptions C06_reported_pinches_are_exact_pinches_rounded.
+
+Theorem C06_absent_iff_exact_residual_rounded :
+  forall hot cold extra, wfs_b (map roundv hot) = true -> wfs_b (map roundv cold) = true -> hot ++ cold <> [] ->
+  gaps_b (act_window + delta6) (grid_of (endpoints (hot ++ cold ++ extra))) = true ->
+  let p := stage_model act_window hot cold extra in
+  (snd (pinch_idx tol (pHn p)) = false <->
+   ((forall T, In T (pT p) -> tol <= residual (map roundv hot) (map roundv cold) T)
+    \/ (forall T, In T (pT p) -> residual (map roundv hot) (map roundv cold) T < tol))).
+Proof. exact stage_rounded_pinch_absent_iff. Qed.
+Print Assumptions C06_absent_iff_exact_residual_rounded.
+
+(* the same on ANY descending grid that covers the end points of grid-aligned streams (the common root of the two above) *)
+Theorem C06_composed_on_any_covering_grid :
+  forall tolv, 0 < tolv -> forall w d, 0 <= d -> d < w -> forall hot cold hotR coldR,
+  Forall2 (nearv d) hot hotR -> Forall2 (nearv d) cold coldR -> wfs hotR -> wfs coldR ->
+  forall g, desc g -> g <> [] -> covers g (eps_all hotR coldR) -> gaps_ok w d g ->
+  (exists T, In T g /\ residual hotR coldR T < tolv) -> (exists T, In T g /\ tolv <= residual hotR coldR T) ->
+  exists rh rc, pinch_idx tolv (pHn (pta w hot cold g)) = (rh, rc, true)
+    /\ pinch_temperatures tolv g (pHn (pta w hot cold g)) = Some (nth rh g 0, nth rc g 0)
+    /\ pinch_real_spec tolv (residual hotR coldR) g rh rc.
+Proof. exact pinch_composed. Qed.
+Print Assumptions C06_composed_on_any_covering_grid.
+
+(* non-vacuity: a problem with TWO pinches (net deficit above T = 0, 10, 5, 10, 0 at 300, 250, 200, 150, 100; Qh = 10): every
+   hypothesis of C06_reported_pinches_are_exact_pinches holds, the reported pair is (250, 150), the residual between them
+   is not zero (2.5 at 225) *)
+Theorem C06_two_pinch_example :
+  let p := stage_model act_window ex2_hot ex2_cold [] in
+  wfs_b ex2_hot = true /\ wfs_b ex2_cold = true
+  /\ forallb (fun e => qeqb (round_dp grid_round_dp e) e) (endpoints (ex2_hot ++ ex2_cold ++ [])) = true
+  /\ gaps_b act_window (grid_of (endpoints (ex2_hot ++ ex2_cold ++ []))) = true
+  /\ pT p = [300; 250; 200; 150; 100] /\ pHn p = [10; 0; 5; 0; 10]
+  /\ map (fun T => Qred (residual ex2_hot ex2_cold T)) (pT p) = [10; 0; 5; 0; 10]
+  /\ pinch_idx tol (pHn p) = (1%nat, 3%nat, true)
+  /\ pinch_temperatures tol (pT p) (pHn p) = Some (250, 150)
+  /\ Qred (residual ex2_hot ex2_cold 225) = 5 # 2.
+Proof. exact ex2_two_pinches. Qed.
+Print Assumptions C06_two_pinch_example.
+
+(* ... and a threshold problem (Qh = 0): the residual is zero from the top row down to 250, both pinches are reported at 250 *)
+Theorem C06_threshold_example :
+  let p := stage_model act_window ex3_hot ex3_cold [] in
+  gaps_b act_window (grid_of (endpoints (ex3_hot ++ ex3_cold ++ []))) = true
+  /\ pT p = [300; 250; 100] /\ pHn p = [0; 0; 15]
+  /\ pinch_temperatures tol (pT p) (pHn p) = Some (250, 250).
+Proof. exact ex3_threshold. Qed.
+Print Assumptions C06_threshold_example.
